@@ -654,6 +654,42 @@ class Builtins:
     def bi_str__format(self, I, args, kw, node):
         return VSeq(I.fresh('fmt', S.sort), 'str')
 
+    def _strip_side(self, I, args, node, right, kind):
+        """x.rstrip(chars) / x.lstrip(chars) with an explicit character set: the result is x without its maximal run, at that end, of
+        elements that occur in chars.  Encoded with a fresh cut position k and its defining conditions (every removed element is in
+        chars; the element next to the cut, if any, is not)."""
+        if len(args) != 2:
+            raise Unsupported('%sstrip() without an explicit character set' % ('r' if right else 'l'), node)
+        x, cs = args[0], I.unwrap(args[1], node)
+        if not isinstance(cs, VSeq) or cs.th is not S:
+            raise Unsupported('strip character set', node)
+        C, _ = contains_fn(S)
+        n = S.Len(x.t)
+        k = I.fresh_int('strip_k')
+        i = z3.Int('strip_i!%d' % I.st.counter)
+        I.st.counter += 1
+        if right:
+            I.assume(z3.And(0 <= k, k <= n))
+            I.assume(z3.ForAll([i], z3.Implies(z3.And(k <= i, i < n), C(cs.t, S.Idx(x.t, i))), patterns=[S.Idx(x.t, i)]))
+            I.assume(z3.Or(k == 0, z3.Not(C(cs.t, S.Idx(x.t, k - 1)))))
+            return VSeq(S.Take(x.t, k), kind)
+        I.assume(z3.And(0 <= k, k <= n))
+        I.assume(z3.ForAll([i], z3.Implies(z3.And(0 <= i, i < k), C(cs.t, S.Idx(x.t, i))), patterns=[S.Idx(x.t, i)]))
+        I.assume(z3.Or(k == n, z3.Not(C(cs.t, S.Idx(x.t, k)))))
+        return VSeq(S.Drop(x.t, k), kind)
+
+    def bi_bytes__rstrip(self, I, args, kw, node):
+        return self._strip_side(I, args, node, True, 'bytes')
+
+    def bi_bytes__lstrip(self, I, args, kw, node):
+        return self._strip_side(I, args, node, False, 'bytes')
+
+    def bi_str__rstrip(self, I, args, kw, node):
+        return self._strip_side(I, args, node, True, 'str')
+
+    def bi_str__lstrip(self, I, args, kw, node):
+        return self._strip_side(I, args, node, False, 'str')
+
     def bi_str__strip(self, I, args, kw, node):
         return VSeq(self.ctx.uf('str_strip', S.sort, S.sort)(args[0].t), 'str')
 
